@@ -25,7 +25,8 @@ CONSTANTS G,             \* number of goroutines
           Filter,        \* WithBufferFilterFunc: "none" | "halve" | "zero" | "neg" (a negative answer is ignored)
           MaxObj,        \* bound on the number of objects per level (model bound only)
           TruncKeepsNil, \* trunc as found in the pinned tree
-          CloseTruncates \* FALSE: a mutant whose close() forgets to truncate data
+          CloseTruncates, \* FALSE: a mutant whose close() forgets to truncate data
+          NestedCloseNoop \* Close() on a nested handle has no effect (skipClose); FALSE: a mutant in which it puts the object into its pool
 
 NIL == 0
 Tops    == 1..MaxObj
@@ -121,6 +122,13 @@ Close(g) ==
           /\ hist' = Append(hist, <<"close", g, o>>)
           /\ UNCHANGED panic
 
+\* Close() called on the handle of a nested result - at any time: while its parent is open, after the parent was closed (a deferred
+\* Close that runs late) or even after the object was handed to another result.  It never has any effect (skipClose stays set for the
+\* object's whole life); the mutant puts the object into its pool, whoever holds it.
+StaleClose(o) == /\ o \in Nesteds /\ obj[o].st # "free" /\ ~panic
+                 /\ obj' = IF NestedCloseNoop THEN obj ELSE [obj EXCEPT ![o] = [@ EXCEPT !.st = "pooled", !.holder = 0]]
+                 /\ UNCHANGED <<pc, cur, panic, hist>>
+
 \* the garbage collector may empty a sync.Pool at any time
 Drop(o) == /\ obj[o].st = "pooled"
            /\ obj' = [obj EXCEPT ![o] = Fresh]
@@ -128,7 +136,7 @@ Drop(o) == /\ obj[o].st = "pooled"
 
 Next == \/ \E g \in 1..G : \/ \E i \in Inputs : Decode(g, i)
                            \/ Nested(g) \/ Read(g) \/ Close(g)
-        \/ \E o \in Objs : Drop(o)
+        \/ \E o \in Objs : Drop(o) \/ StaleClose(o)
 
 Spec == Init /\ [][Next]_vars
 
